@@ -262,7 +262,7 @@ def _check_getgrids_sites(prog, ctx, cs):
                       "the enumeration budget `%s` is >= 1 over the enclosing loop ranges (minimum %s, given lmax >= lmin)" % (src(call.args[1]), shown[:2]),
                       "`%s` can be called with a budget < 1 (minimum over the loop ranges: %s): getGrids(1, 0) yields the level vector [0], "
                       "an index below the minimum level enters the set in one dimension" % (src(call), shown[:2]))
-    ctx.floor("C01.D7", n, 4, "getGrids call sites")
+    ctx.floor("C01.D7", n, 2, "getGrids call sites")
     # the axiom lmax >= lmin is asserted by both public initialisers, which hand their own lmax, lmin on
     for nm in ("init_adaptive_combi_scheme", "init_full_grid"):
         fi = cs.methods[nm]
